@@ -748,13 +748,15 @@ class ASTNode(DataClassSerializeMixin):
             if f.name == "origin" and skip_origin:
                 continue
 
-            # Skip non-comparable fields
-            if not f.compare and skip_non_compare:
-                continue
+            # id, content_id & origin only follow their own flags (as in get_properties)
+            if f.name not in ("id", "content_id", "origin"):
+                # Skip non-comparable fields
+                if not f.compare and skip_non_compare:
+                    continue
 
-            # Skip non-init fields
-            if not f.init and skip_non_init:
-                continue
+                # Skip non-init fields
+                if not f.init and skip_non_init:
+                    continue
 
             yield f
 
